@@ -53,13 +53,13 @@ add("C04", "exploration",
     "exhaustive enumeration of a boundary coordinate alphabet with an exact-arithmetic oracle, on the implementation",
     "DESIGN.md 2/C04", "E1+E3")
 add("C09", "exploration",
-    "Exact equality over every small-integer affine map and vector (all entries for N<=3, deviation-bounded for N=4), every product of up to 4 generator transforms compared with function composition, the factories on a grid, plus an inexact ladder with an operation-count bound; float and double; layer and operator observed separately.",
+    "Exact equality over every small-integer affine map and vector (all entries for N<=3, deviation-bounded for N=4), every product of up to 4 generator transforms compared with function composition (folded through a named variable, written with temporaries on the left as in a*b*c*d, and with an expiring right operand), the factories on a grid, plus an inexact ladder with an operation-count bound; float and double; layer and operator observed separately.",
     "small-integer alphabets make every operation exact; inexact bound (N+2)u",
     "bounded-exhaustive enumeration of matrices / operation sequences (products up to depth 4) against an integer reference model",
     "DESIGN.md 2/C09", "E1+E3")
 add("C10", "exploration",
     "N-fold products of an extreme-value alphabet (type minima/maxima, infinities, signed zeros, values equal and adjacent to each bound) over every box combination, six coordinate types, N=1..4; the delegated coordinate is read back through clamp<identity>, storage safety through the probe backend (index in bounds) and the real array under ASan; clamp above and below an interpolator.",
-    "NaN excluded; boxes from a 3-element family per axis",
+    "NaN excluded; boxes from a 4-element family per axis (pinned, two small, one wide with bounds that float / double cannot represent next to the type extremes; storage-backed passes use the three small ones)",
     "exhaustive enumeration of a boundary coordinate alphabet x box configurations, probe backend + ASan as oracle",
     "DESIGN.md 2/C10", "E1+E2")
 add("C11", "exploration",
@@ -111,14 +111,14 @@ add("C17", "exploration",
     "bounded-exhaustive enumeration of stacks (grammar cover + depth 1..10 helper chains) with read-back / rebuild oracle on the implementation",
     "DESIGN.md 2/C17", "E3+E4")
 add("C06", "model_checking",
-    "States are distinct byte streams: for every stack of the serialisable catalogue x configuration variants (ordinary, special values in every blob, 1-cell extents, empty field, a payload of several KiB) x stored bit patterns (rotations and every scalar position in turn) the real dump is produced, dissected by an independent format automaton, "
+    "States are distinct byte streams: for every stack of the serialisable catalogue x configuration variants (ordinary, special values in every blob, 1-cell extents, empty field, a payload of several KiB, Morton/Hilbert storage cut off after the largest reachable curve position) x stored bit patterns (rotations and every scalar position in turn) the real dump is produced, dissected by an independent format automaton, "
     "loaded by the real reader and compared typed: every layer's configuration bit-identical, every stored scalar bit-identical, re-dump byte-identical, exact consumption; two builds.",
     "little-endian x86-64; catalogue = adjacency cover (every layer and adjacency), not every stack",
     "exhaustive enumeration of (stack, configuration variant, bit pattern, position) with a format automaton as model; every transition (dump, load, re-dump) run on the implementation",
     "DESIGN.md 2/C06", "E4+E7")
 add("C07", "model_checking",
     "The format automaton is the model; conformance runs in both directions: every implementation dump is accepted by it (C06), and every ordered pair of catalogue stacks with identical on-disk footprint (differing in interpolator, coordinate precision, footprint-free wrappers and/or float width) "
-    "is exercised writer->reader over a narrowing-critical finite alphabet (small fields and a several-KiB variant) with a software round-to-nearest-even oracle; 410 committed golden files pin the bytes across revisions (load, re-dump, rebuild-from-recipe == golden).",
+    "is exercised writer->reader over a narrowing-critical finite alphabet (small fields, a several-KiB variant, 1-cell extents, tight curve storage) with a software round-to-nearest-even oracle; 410 committed golden files pin the bytes across revisions (load, re-dump, rebuild-from-recipe == golden).",
     "golden files were written by the pinned revision plus its fix: commits; finite values only",
     "exhaustive pair enumeration over the catalogue + golden-file conformance, format automaton as bound model",
     "DESIGN.md 2/C07", "E4+E7")
